@@ -109,8 +109,17 @@ namespace c15
         int state() override { return rl.state; }
         std::string tail() override
         {
+            // the ring as the C strings its slots hold (round 3: the bytes behind a slot's terminator are not
+            // fixed by the property - a push that clears the slot first is as good)
+            std::string slots;
+            unsigned cap = rl.line.cap;
+            for (unsigned i = 0; i < depth && cap; i++)
+            {
+                size_t n = strnlen((const char *)h.p + (size_t)i * cap, cap);
+                slots += (i ? "." : "") + hex(h.p + (size_t)i * cap, n);
+            }
             return " H" + std::to_string(rl.headhist) + "," + std::to_string(rl.curhist) + "," + std::to_string(rl.state) +
-                   "," + (depth ? hex(h.p, h.n) : std::string("-"));
+                   "," + (depth && cap ? slots : std::string("-"));
         }
     };
     ireadline *make_readline_c(unsigned cap, unsigned depth) { return new readline_c(cap, depth); }
